@@ -34,6 +34,10 @@ CHECKS = {
          "Scenarios over 1-8 members, any one failing or removed, generated pinsets (arbitrary allocations, factors, options, pins created by pin-update, everywhere-pins), survivor metric states, re-pinning on/off, follower on/off, non-ping alerts only. From the recorded LogPin/LogUnpin per peer and the pinsets before/after: nothing disappears; at most one survivor acts per pin and exactly one when healthy holders fell below min and candidates exist; the new allocation satisfies the C03 predicate with the failed peer excluded and absent; all options preserved; everything else content-identical. Expired pins are unpinned by exactly one member's StateSync, live ones by none.",
          "Members agree on peerset and trust (premise of the property). The alert handler's sequential processing is used as the 'handled' barrier; a barrier not reached in 20 s is inconclusive. Alert path with re-pinning disabled is exercised on the removal path only (the handler goroutine of such a peer stops for good).",
          "DESIGN.md §4 C10"),
+ "C06": ("exploration", "runtime truth-table monitor: quiescent situations constructed on the real tracker (pinset entry x daemon pin state x outcome of a really executed last operation), both local views and all filters compared",
+         "For constructed situations over 6 CIDs, Status(c), the unfiltered listing and listings under every single status and random unions are taken from the real stateless tracker; the two views must fall in the same class, that class must be the one the constructed facts dictate, and each filtered listing must equal the unfiltered one restricted to the filter.",
+         "pin_error and unexpectedly_unpinned count as the same class ('an error status'). Where the daemon holds a CID in another mode than recorded only agreement is demanded. The cluster-wide view (peer map) is checked in the networked case family when present in the evidence keys ('global/').",
+         "DESIGN.md §4 C06"),
 }
 
 ALL = ["C%02d" % i for i in range(1, 19)]
